@@ -283,3 +283,21 @@ impl<M: Math, R: rand::Rng, A: AdaptStrategy<M>> SamplerStats<M> for NutsChain<M
         }
     }
 }
+
+#[cfg(nuts_rs_verif)]
+impl<M, R, A> NutsChain<M, R, A>
+where
+    M: Math,
+    R: rand::Rng,
+    A: AdaptStrategy<M>,
+{
+    /// Verification hook: read access to the adaptation strategy.
+    pub fn verif_strategy(&self) -> &A {
+        &self.strategy
+    }
+
+    /// Verification hook: read access to the Hamiltonian.
+    pub fn verif_hamiltonian(&self) -> &A::Hamiltonian {
+        &self.hamiltonian
+    }
+}
